@@ -5,7 +5,8 @@ package main
 //
 // Correspondence: the whole URL (byte for byte) and the octet string that was really signed (identified by
 // public-key verification, never by asking the implementation) must equal what coq/Redirect.v computes from the
-// same relay state, configuration, url.Parse split, DEFLATE bytes and signature bytes.
+// same relay state, configuration, endpoint as configured (url.Parse / URL.String are modelled in coq/Url.v and compared
+// with net/url by the case set of urlmodel.go), DEFLATE bytes and signature bytes.
 // Spec oracle (generator knowledge only): endpoint and own parameters kept, SAMLRequest inflates to the document,
 // RelayState present iff non-empty and decodes to it, SigAlg names the algorithm, Signature verifies with the key
 // the generator configured as signing key over the octets cut out of the URL itself.
@@ -44,6 +45,7 @@ func init() {
 		c14Run(c, c.N(260, 3000))
 		c14ParseQuery(c, c.N(300, 4000))
 		c14SigInput(c, c.N(300, 4000))
+		c14UrlModel(c, c.N(1500, 30000))
 	}
 }
 
@@ -405,7 +407,13 @@ func c14OptS(present bool, s string) string {
 
 func c14Run(c *Ctx, n int) {
 	// the comparison is made inside Coq (CorrDiff.same_as): a mismatch prints the first differing byte, not two long URLs
-	cs := c.NewSet("url", "Base Escape CorrDiff Redirect",
+	// url.Parse / URL.String are MODELLED (coq/Url.v): the model gets the endpoint as configured and splits it itself.
+	// The table-oracle variant (the split computed here with the real net/url and handed to the model) is kept for the
+	// inputs c14OutsideModel names, which is no input at present.
+	cs := c.NewSet("url", "Base Escape CorrDiff Redirect Url",
+		"(string * redirect_config * string * string * string * option string * val)",
+		"fun i => match i with (flow, cfg, endpoint, relay, deflated, sig, observed) => same_as observed (run_redirect_url flow cfg endpoint relay deflated sig) end")
+	csOracle := c.NewSet("url_oracle", "Base Escape CorrDiff Redirect",
 		"(string * redirect_config * option parsed_url * string * string * option string * val)",
 		"fun i => match i with (flow, cfg, parsed, relay, deflated, sig, observed) => same_as observed (run_redirect flow cfg parsed relay deflated sig) end")
 	algs := []string{"", "", dsig.RSASHA1SignatureMethod, dsig.RSASHA256SignatureMethod, dsig.RSASHA384SignatureMethod, dsig.RSASHA512SignatureMethod,
@@ -549,6 +557,15 @@ func c14Run(c *Ctx, n int) {
 			replay["error"] = err.Error()
 		}
 		desc := fmt.Sprintf("flow=%s idp_url=%q relay=%q(%s) sign=%v alg=%q keys=%s doc=%s", flow, iu.raw, c14Short(relay), relayClass, sp.SignAuthnRequests, alg, kcLabel, docClass)
+		addCase := func(tail string) {
+			if c14OutsideModel(iu.raw) {
+				csOracle.Add("("+S(modelFlow)+", "+cfgTerm+", "+parsedTerm+", "+tail+")", VC("same"), desc)
+				c.Count("url.Parse:table-oracle(outside_model)")
+			} else {
+				cs.Add("("+S(modelFlow)+", "+cfgTerm+", "+S(iu.raw)+", "+tail+")", VC("same"), desc)
+				c.Count("url.Parse:modelled")
+			}
+		}
 		nontrivial := relayClass != "empty" && relayClass != "plain" || len(iu.own) > 0 || expectSign || err != nil
 		c.Eval(nontrivial, fmt.Sprintf("%s|%s|%s|%s|%s|%v", flow, relayClass, iu.class, alg, kcLabel, sp.SignAuthnRequests))
 		c.Count("flow:" + flow)
@@ -569,16 +586,16 @@ func c14Run(c *Ctx, n int) {
 		if perr != nil || expectSignFail {
 			if err == nil {
 				c.Violate("spec", "c14:error-swallowed", "unparsable IdP URL or failing signer still produced a URL", replay)
-				cs.Add("("+S(modelFlow)+", "+cfgTerm+", "+parsedTerm+", "+S(relay)+", "+S("")+", None, "+VC("Ok", VL([]string{VS(out), VC("None")}))+")", VC("same"), desc)
+				addCase(S(relay) + ", " + S("") + ", None, " + VC("Ok", VL([]string{VS(out), VC("None")})))
 				continue
 			}
-			cs.Add("("+S(modelFlow)+", "+cfgTerm+", "+parsedTerm+", "+S(relay)+", "+S("")+", None, "+VC("Err", errVal(err))+")", VC("same"), desc)
+			addCase(S(relay) + ", " + S("") + ", None, " + VC("Err", errVal(err)))
 			c.Count("outcome:error")
 			continue
 		}
 		if err != nil {
 			c.Violate("spec", "c14:unexpected-error", "well-formed inputs rejected: "+err.Error(), replay)
-			cs.Add("("+S(modelFlow)+", "+cfgTerm+", "+parsedTerm+", "+S(relay)+", "+S("")+", None, "+VC("Err", errVal(err))+")", VC("same"), desc)
+			addCase(S(relay) + ", " + S("") + ", None, " + VC("Err", errVal(err)))
 			continue
 		}
 		c.Count("outcome:url")
@@ -587,8 +604,17 @@ func c14Run(c *Ctx, n int) {
 		okShape := strings.HasPrefix(out, prefix+"?") && strings.HasSuffix(out, frag) && len(out) >= len(prefix)+1+len(frag)
 		if !okShape {
 			c.Violate("spec", "c14:endpoint-changed", fmt.Sprintf("URL does not keep the IdP endpoint %q ... %q", prefix, frag), replay)
-			cs.Add("("+S(modelFlow)+", "+cfgTerm+", "+parsedTerm+", "+S(relay)+", "+S("")+", None, "+VC("Ok", VL([]string{VS(out), VC("None")}))+")", VC("same"), desc)
+			addCase(S(relay) + ", " + S("") + ", None, " + VC("Ok", VL([]string{VS(out), VC("None")})))
 			continue
+		}
+		// an endpoint of the common class (C14_endpoint_kept) is kept BYTE FOR BYTE: the URL is the configured text before its
+		// '?', then "?" and the query — judged on the configured string itself, not on net/url's normal form of it
+		if c14CommonEndpoint(iu.raw) {
+			c.Count("idp-url-common-class:kept-verbatim-checked")
+			base, _, _ := strings.Cut(iu.raw, "?")
+			if !strings.HasPrefix(out, base+"?") {
+				c.Violate("spec", "c14:endpoint-not-verbatim", fmt.Sprintf("URL does not start with the configured endpoint %q followed by '?'", base), replay)
+			}
 		}
 		rawq := out[len(prefix)+1 : len(out)-len(frag)]
 		pairs := c14Split(rawq)
@@ -761,8 +787,7 @@ func c14Run(c *Ctx, n int) {
 		}
 
 		// ---- correspondence
-		in := "(" + S(modelFlow) + ", " + cfgTerm + ", " + parsedTerm + ", " + S(relay) + ", " + S(string(deflated)) + ", " + c14OptS(len(sigVals) > 0, string(sigBytes)) + ", " + VC("Ok", VL([]string{VS(out), signedTerm})) + ")"
-		cs.Add(in, VC("same"), desc)
+		addCase(S(relay) + ", " + S(string(deflated)) + ", " + c14OptS(len(sigVals) > 0, string(sigBytes)) + ", " + VC("Ok", VL([]string{VS(out), signedTerm})))
 		c.Sample(map[string]interface{}{"flow": flow, "idp_url": iu.raw, "relay_state": c14Short(relay), "algorithm": alg, "keys": kcLabel, "url": c14Short(out)})
 	}
 }
